@@ -4,6 +4,7 @@ import (
 	"fmt"
 	"go/ast"
 	"go/token"
+	"go/types"
 	"strings"
 
 	"golang.org/x/tools/go/ssa"
@@ -364,4 +365,241 @@ func (c *Ctx) ruleVariantSelect() {
 		}
 		c.ob("R-VARIANT/select", "encodeHeader:"+g.Name(), u.Pos(), ok2, fmt.Sprintf("%s must be selected only on paths where %s is established (found nil=%v nonnil=%v hashed=%v nothashed=%v)", g.Name(), want, valNil, valNonNil, isHashed, notHashed))
 	})
+}
+
+// R-EPOCHARG: the verifier checks VRF proofs for the block's OWN epoch.
+func (c *Ctx) ruleEpochArg() {
+	const dir = "lib/babe"
+	c.doc("R-EPOCHARG", "VerificationManager.VerifyBlock hands newVerifier the unmodified result of GetEpochForBlock(header) (the block's own epoch, which the producer signs into the VRF transcript) — not the epoch whose descriptor is used after skipped epochs; newVerifier stores it in verifier.epoch; inside the verifier every callee parameter named epoch/randomness receives verifier.epoch/verifier.randomness")
+	f := c.fn(dir, "(*VerificationManager).VerifyBlock")
+	if f != nil {
+		n := 0
+		eachInstr(f, func(_ *ssa.BasicBlock, _ int, in ssa.Instruction) {
+			call, ok := in.(*ssa.Call)
+			if !ok || call.Call.StaticCallee() == nil || call.Call.StaticCallee().Name() != "newVerifier" {
+				return
+			}
+			n++
+			ok2 := false
+			if ex, isEx := stripConv(call.Call.Args[2]).(*ssa.Extract); isEx && ex.Index == 0 {
+				if src, isCall := ex.Tuple.(*ssa.Call); isCall && src.Call.IsInvoke() && src.Call.Method.Name() == "GetEpochForBlock" && len(src.Call.Args) == 1 && src.Call.Args[0] == ssa.Value(f.Params[1]) {
+					ok2 = true
+				}
+			}
+			c.ob("R-EPOCHARG", fmt.Sprintf("VerifyBlock:newVerifier-epoch#%d", n), call.Pos(), ok2,
+				"the verifier must be built with GetEpochForBlock(header) itself: with any other epoch (e.g. parent epoch + 1 after skipped epochs) honest VRF claims of the block's epoch are rejected and claims signed for another epoch accepted")
+		})
+		if n == 0 {
+			c.ob("R-EPOCHARG", "VerifyBlock:newVerifier-epoch", f.Pos(), false, "newVerifier is not called (anchor changed)")
+		}
+	}
+	if nv := c.fn(dir, "newVerifier"); nv != nil {
+		ok := false
+		eachInstr(nv, func(_ *ssa.BasicBlock, _ int, in ssa.Instruction) {
+			if st, isSt := in.(*ssa.Store); isSt {
+				if fa, isFA := st.Addr.(*ssa.FieldAddr); isFA && fieldVar(fa) != nil && fieldVar(fa).Name() == "epoch" && st.Val == ssa.Value(nv.Params[2]) {
+					ok = true
+				}
+			}
+		})
+		c.ob("R-EPOCHARG", "newVerifier:epoch-field", nv.Pos(), ok, "newVerifier stores its epoch parameter in verifier.epoch")
+	}
+	sp := c.ssaPkg(dir)
+	if sp == nil {
+		return
+	}
+	n := 0
+	for _, g := range allFuncs(c, sp) {
+		if g.Signature.Recv() == nil || !strings.HasSuffix(g.Signature.Recv().Type().String(), "babe.verifier") || len(g.Params) == 0 {
+			continue
+		}
+		eachInstr(g, func(_ *ssa.BasicBlock, _ int, in ssa.Instruction) {
+			call, ok := in.(*ssa.Call)
+			if !ok || call.Call.StaticCallee() == nil || call.Call.StaticCallee().Pkg != sp {
+				return
+			}
+			cal := call.Call.StaticCallee()
+			for i, p := range cal.Params {
+				if i >= len(call.Call.Args) || (p.Name() != "epoch" && p.Name() != "randomness") {
+					continue
+				}
+				n++
+				base, fv, isField := fieldLoad(stripConv(call.Call.Args[i]))
+				ok2 := isField && fv != nil && fv.Name() == p.Name() && base == ssa.Value(g.Params[0])
+				c.ob("R-EPOCHARG", fmt.Sprintf("%s->%s:%s#%d", shortFn(g), cal.Name(), p.Name(), n), call.Pos(), ok2,
+					"inside the verifier the "+p.Name()+" handed to "+cal.Name()+" must be verifier."+p.Name())
+			}
+		})
+	}
+}
+
+// R-FULLSCAN: every loop that walks a list of the given element type visits ALL its elements.
+// Affine reasoning in the coordinates of the underlying list B: an access X[ind+k] with X = B[aX:], ind ranging over
+// [s, len(S)) with S = B[aS:], touches B[aX+s+k .. len(B)-aS+aX+k-1]; it is complete iff aX+k-aS == 0 and the indices
+// below aX+s+k are read through constant indices.
+func (c *Ctx) ruleFullScan(rule string, f *ssa.Function, elemSubstr, why string) {
+	if f == nil {
+		return
+	}
+	type norm struct {
+		base ssa.Value
+		off  int64
+		ok   bool
+	}
+	normalise := func(v ssa.Value) norm {
+		off := int64(0)
+		for {
+			sl, isSl := v.(*ssa.Slice)
+			if !isSl {
+				return norm{v, off, true}
+			}
+			if sl.High != nil || sl.Max != nil {
+				return norm{v, off, false}
+			}
+			if sl.Low != nil {
+				k, isC := constInt(sl.Low)
+				if !isC {
+					return norm{v, off, false}
+				}
+				off += k
+			}
+			v = sl.X
+		}
+	}
+	isElem := func(v ssa.Value) bool {
+		s, ok := v.Type().Underlying().(*types.Slice)
+		return ok && strings.Contains(s.Elem().String(), elemSubstr)
+	}
+	n := 0
+	for _, g := range withAnon(f) {
+		constReads := map[ssa.Value]map[int64]bool{}
+		type scan struct {
+			ia         *ssa.IndexAddr
+			base       ssa.Value
+			lo, slack  int64
+			decided    bool
+			undecidedW string
+		}
+		var scans []scan
+		seenLoop := map[ssa.Value]bool{}
+		eachInstr(g, func(_ *ssa.BasicBlock, _ int, in ssa.Instruction) {
+			ia, ok := in.(*ssa.IndexAddr)
+			if !ok || !isElem(ia.X) {
+				return
+			}
+			x := normalise(ia.X)
+			if cidx, isC := constInt(ia.Index); isC {
+				if x.ok {
+					if constReads[x.base] == nil {
+						constReads[x.base] = map[int64]bool{}
+					}
+					constReads[x.base][x.off+cidx] = true
+				}
+				return
+			}
+			ind, k := ia.Index, int64(0)
+			var phi *ssa.Phi
+			start := int64(0)
+			classify := func(v ssa.Value) bool {
+				// range style: v = phi + 1, phi = [-1, v, v...]
+				if bo, isBin := v.(*ssa.BinOp); isBin && bo.Op == token.ADD {
+					if p, isPhi := bo.X.(*ssa.Phi); isPhi {
+						if one, isC := constInt(bo.Y); isC && one == 1 {
+							init, rest := false, true
+							for _, e := range p.Edges {
+								if cst, isC := constInt(e); isC && cst == -1 {
+									init = true
+								} else if e != ssa.Value(bo) {
+									rest = false
+								}
+							}
+							if init && rest {
+								phi, start = p, 0
+								return true
+							}
+						}
+					}
+				}
+				// classic: v = phi [c0, phi+1]
+				if p, isPhi := v.(*ssa.Phi); isPhi {
+					c0, hasInit, rest := int64(0), false, true
+					for _, e := range p.Edges {
+						if cst, isC := constInt(e); isC {
+							c0, hasInit = cst, true
+							continue
+						}
+						bo, isBin := e.(*ssa.BinOp)
+						one, isC := int64(0), false
+						if isBin {
+							one, isC = constInt(bo.Y)
+						}
+						if !isBin || bo.Op != token.ADD || bo.X != ssa.Value(p) || !isC || one != 1 {
+							rest = false
+						}
+					}
+					if hasInit && rest {
+						phi, start = p, c0
+						return true
+					}
+				}
+				return false
+			}
+			if !classify(ind) {
+				if bo, isBin := ind.(*ssa.BinOp); isBin && bo.Op == token.ADD {
+					if kk, isC := constInt(bo.Y); isC && classify(bo.X) {
+						ind, k = bo.X, kk
+					}
+				}
+			}
+			if phi == nil {
+				return // not an induction-variable access: nothing claimed about it
+			}
+			if seenLoop[ind] {
+				return
+			}
+			seenLoop[ind] = true
+			// bound: ind < len(S)
+			var bound ssa.Value
+			for _, ref := range *ind.(ssa.Value).Referrers() {
+				if bo, isBin := ref.(*ssa.BinOp); isBin && bo.Op == token.LSS && bo.X == ind {
+					if l, isLen := lenOf(bo.Y); isLen {
+						bound = l
+					}
+				}
+			}
+			sc := scan{ia: ia}
+			if bound == nil || !x.ok {
+				sc.undecidedW = "loop bound is not `index < len(list)` or the list is re-sliced with an upper bound"
+				scans = append(scans, sc)
+				return
+			}
+			s := normalise(bound)
+			if !s.ok || !sameValue(s.base, x.base) {
+				sc.undecidedW = "the loop is bounded by the length of a different list than the one it indexes"
+				scans = append(scans, sc)
+				return
+			}
+			sc.base, sc.decided = x.base, true
+			sc.lo = x.off + start + k
+			sc.slack = x.off + k - s.off // 0 == reaches the last element exactly
+			scans = append(scans, sc)
+		})
+		for _, sc := range scans {
+			n++
+			ok, msg := false, sc.undecidedW
+			if sc.decided {
+				ok = sc.slack == 0
+				for i := int64(0); i < sc.lo; i++ {
+					if !constReads[sc.base][i] {
+						ok = false
+					}
+				}
+				msg = fmt.Sprintf("first visited index %d (lower ones must be read explicitly), distance of the last visited index from the end %d", sc.lo, -sc.slack)
+			}
+			c.ob(rule, fmt.Sprintf("%s:scan#%d", relName(g.String()), n), sc.ia.Pos(), ok, why+" — "+msg)
+		}
+	}
+	if n == 0 {
+		c.ob(rule, relName(f.String())+":scan", f.Pos(), false, "no loop over a list of "+elemSubstr+" found (anchor changed)")
+	}
 }
